@@ -407,6 +407,18 @@ class Fn:
       self.probe = False
 
 
+class Region(Fn):
+  """R7: a statement sequence (or one expression) inside a large function, wrapped as a function of its declared free
+  variables.  `start`/`end` are regexes searched in the body of `fn`; the region is [line of start match, line of end match)
+  (for expr=True: [end of start match, start of end match)).  `sig` is the full signature of the wrapper; `head`/`tail` are
+  declared texts placed before/after the verbatim region (typically the tuple of locals handed back)."""
+
+  def __init__(self, file, name, fn, start, end, sig, head="", tail="", expr=False, start_occ=0, **kw):
+    Fn.__init__(self, file, fn, **kw)
+    self.region_name, self.start, self.end, self.sig, self.head, self.tail, self.expr, self.start_occ = name, start, end, sig, head, tail, expr, start_occ
+    self.rename = kw.get("rename") or name
+
+
 def as_contract(fn):
   """copy of a Fn spec that emits only signature + contract (callee proved in its own unit)"""
   import copy
@@ -539,11 +551,47 @@ def extract_fn(gen, f, probe=False):
   sig = OText.from_source(src.text, ls, bo)
   body = OText.from_source(src.text, bo, bc + 1)
   where = f.file
+  region = isinstance(f, Region)
+  if region:
+    # R7 region extraction
+    hits = [m for m in re.compile(f.start).finditer(src.text, bo, bc) if src.mask[m.start()] == src.text[m.start()]]
+    if len(hits) <= f.start_occ:
+      raise VxError("anchor lost: region %s start /%s/ not found in %s::%s" % (f.region_name, f.start, f.file, f.name))
+    ms = hits[f.start_occ]
+    me = None
+    for m in re.compile(f.end).finditer(src.text, ms.end(), bc):
+      if src.mask[m.start()] == src.text[m.start()]:
+        me = m
+        break
+    if not me:
+      raise VxError("anchor lost: region %s end /%s/ not found in %s::%s" % (f.region_name, f.end, f.file, f.name))
+    if f.expr:
+      ra, rb = ms.end(), me.start()
+    else:
+      ra, rb = src.text.rfind("\n", 0, ms.start()) + 1, src.text.rfind("\n", 0, me.start()) + 1
+    d = 0
+    for ch in src.mask[ra:rb]:
+      if ch in "{([":
+        d += 1
+      elif ch in "})]":
+        d -= 1
+        if d < 0:
+          break
+    if d != 0:
+      raise VxError("anchor lost: region %s of %s::%s is not a balanced statement sequence (lines %d-%d)" % (f.region_name, f.file, f.name, src.line_of(ra), src.line_of(rb)))
+    body = OText.from_source(src.text, ra, rb)
+    l0 = src.line_of(ra)
+    body.insert(0, "{\n" + (f.head + "\n" if f.head else ""), l0)
+    body.insert(len(body.s), "\n" + (f.tail + "\n" if f.tail else "") + "}", src.line_of(rb))
+    gen.drops.append({"rule": "R7", "at": "%s:%d-%d" % (where, l0, src.line_of(rb) - (0 if f.expr else 1)),
+                      "what": "region `%s` of fn %s wrapped as `%s`; the region text is verbatim, free variables are the wrapper's parameters%s%s" % (
+                        f.region_name, f.name, " ".join(f.sig.split()), ("; head: " + " ".join(f.head.split())) if f.head else "", ("; tail: " + " ".join(f.tail.split())) if f.tail else "")})
+    ls = ra
   qual = ("%s::%s" % (re.sub(r"^impl\s+", "", f.emit_impl), f.name)) if f.emit_impl else f.name
   if f.rename:
     qual = f.rename
   # ---- signature normalisation (R5)
-  s = sig.s
+  s = f.sig if region else sig.s
   s2 = re.sub(r"^\s*(pub(\([a-z]+\))?\s+)?", "", s)
   for old, new in f.sig_sub:
     if old not in s2:
@@ -555,11 +603,13 @@ def extract_fn(gen, f, probe=False):
       raise VxError("signature anchor lost in %s::%s: `mut %s:`" % (f.file, f.name, mp))
     s2 = re.sub(r"\bmut\s+(%s\s*:)" % re.escape(mp), r"\1", s2, count=1)
     gen.drops.append({"rule": "R5", "at": "%s:%d" % (where, src.line_of(ls)), "what": "by-value parameter `mut %s` -> immutable `%s` plus local `let mut %s__m = %s;` (body occurrences alpha-renamed)" % (mp, mp, mp, mp)})
-  if f.rename:
+  if region:
+    s2 = re.sub(r"\bfn\s+[A-Za-z0-9_]+", "fn " + f.rename.split("::")[-1], s2, count=1)
+  if f.rename and not region:
     s2 = re.sub(r"\bfn\s+" + re.escape(f.name) + r"\b", "fn " + f.rename.split("::")[-1], s2, count=1)
   # return type
   m = re.search(r"\)\s*->\s*(.+?)\s*$", s2, re.S)
-  if m and f.ret:
+  if m and f.ret and not region:
     rt = m.group(1)
     s2 = s2[:m.start()] + ") -> (%s: %s)" % (f.ret, rt)
   sigline = src.line_of(ls)
